@@ -802,7 +802,8 @@ async def quiesce():
 async def run_sc(sc):
     RT.types = mk_types(sc)
     for i, b in enumerate(sc['buses']):
-        bus = TBus(f'B{i}', parallel_handlers=b.get('parallel', False), max_history_size=b.get('maxh', 50),
+        # (a pool of buses created under one requested name: the library renames all but the first)
+        bus = TBus('W' if sc.get('same_names') else f'B{i}', parallel_handlers=b.get('parallel', False), max_history_size=b.get('maxh', 50),
                    wal_path=(os.path.join(WALDIR, f'wal_{i}.jsonl') if b.get('wal') else None))
         RT.busidx[bus] = i
         RT.buses.append(bus)
